@@ -80,7 +80,7 @@ type execResult struct {
 }
 
 type propDef struct {
-	header    string // Coq imports of the cases file
+	header    string            // Coq imports of the cases file
 	headers   map[string]string // further case families (execResult.Family -> imports)
 	rule      string
 	shardSize int
